@@ -151,11 +151,41 @@ theorem INTEGER2long_spec (bs : Bytes) (h : Bytes.wf bs) :
   · rw [if_pos hf]; unfold fitsS64 at hf; simp only []; rw [if_neg (by omega)]
   · rw [if_neg hf]
 
-theorem INTEGER2ulong_partial (bs : Bytes) (h : Bytes.wf bs) (hnn : 0 ≤ twosVal bs) (hlt : twosVal bs < 2 ^ 64) :
+/-- any two well-formed non-empty INTEGERs denoting the same value have the same canonical form -/
+theorem strip_eq_of_val (a b : Bytes) (ha : Bytes.wf a) (hb : Bytes.wf b) (hane : a ≠ []) (hbne : b ≠ [])
+    (h : twosVal a = twosVal b) : strip a = strip b :=
+  minimal_unique _ _ (strip_wf a ha) (strip_wf b hb) (strip_ne_nil a hane) (strip_ne_nil b hbne)
+    (strip_minimal a) (strip_minimal b) (by rw [strip_val a ha, strip_val b hb, h])
+
+/-- the signed path of `NativeInteger_encode_der` is the plain 8-octet image -/
+theorem nativeFakeINTEGER_signed (w : Nat) : nativeFakeINTEGER false w = nativeOctets w := by
+  simp [nativeFakeINTEGER]
+
+/-- the fake INTEGER of an unsigned native cell is well formed, non-empty and denotes the cell's
+    unsigned value, over the whole `unsigned long` range (the leading 00 octet of the F20 repair) -/
+theorem nativeFakeINTEGER_unsigned_spec (u : Nat) (h : u < 2 ^ 64) :
+    nativeFakeINTEGER true u ≠ [] ∧ Bytes.wf (nativeFakeINTEGER true u) ∧
+    twosVal (nativeFakeINTEGER true u) = u := by
+  unfold nativeFakeINTEGER nativeOctets
+  rw [Asn1c.Props.C16.toBEn8]
+  simp only [isNegative, Bool.true_and, decide_eq_true_eq]
+  by_cases hneg : u / 72057594037927936 % 256 ≥ 128
+  · rw [if_pos hneg]
+    refine ⟨by simp, ?_, ?_⟩
+    · intro b hb; simp at hb; omega
+    · simp only [twosVal, ofBE, List.length_cons, List.length_nil]
+      norm_num
+      omega
+  · rw [if_neg hneg]
+    refine ⟨by simp, ?_, ?_⟩
+    · intro b hb; simp at hb; omega
+    · simp only [twosVal, ofBE, List.length_cons, List.length_nil]
+      norm_num
+      split <;> omega
+
+/-- `asn_INTEGER2ulong` is exact on the whole `unsigned long` range (C16, finding F3 repaired) -/
+theorem INTEGER2ulong_fits (bs : Bytes) (h : Bytes.wf bs) (hf : fitsU64 (twosVal bs)) :
     INTEGER2ulong bs = .ok (twosVal bs).toNat := by
-  unfold INTEGER2ulong
-  rw [Asn1c.Props.C16.INTEGER2umax_partial bs h hnn, if_pos hlt]
-  simp only []
-  rw [if_neg (by omega)]
+  rw [Asn1c.Props.C16.INTEGER2ulong_spec bs h, if_pos hf]
 
 end Asn1c.Proofs.Native
